@@ -226,3 +226,21 @@ PLAN["C10"] = {
     "thorough": [{"test": "TestC10_Synthetic", "checks": 20000, "shards": 8, "timeout": 1800},
                  {"test": "TestC10_Real", "checks": 120, "shards": 8, "timeout": 3000}],
 }
+
+PLAN["C07"] = {
+    "level": "exploration",
+    "rule": ("rapid, on real Groth16 systems set up in-process (quick: insertion and deletion at depth 3/batch 2; thorough: + (2,3),(4,1),(1,4) in both modes): parameter sets that are VALID (generated histories/batches as C01/C02, "
+             "input hash = reference packing hash, reduced or as the raw 256-bit Keccak value), INVALID by one batch mutation (every class of C01/C02 expressible with uint32 indices), carrying a WRONG HASH, or of the WRONG SHAPE "
+             "(batch+-1, depth+-1, ragged, empty, short index/commitment lists). Validity is decided by the reference relation + packing. Oracle: valid => Prove* returns (proof, nil) and, for every candidate public input "
+             "h, h+r, h+2r (accept) and h+-1, h xor one bit, hash of a perturbed batch, 0, random (reject), both Verify* of the same system and gnark's groth16.Verify on a harness-built public witness agree with 'candidate == h mod r'; "
+             "the proving system of the other mode with the same dimensions rejects the proof through either Verify entry point; invalid or mis-shaped => (nil proof, error), never a panic. "
+             "Every case is non-trivial (each contains rejecting candidates, a cross-mode attempt or an invalid/mis-shaped set); distinct = SHA-1 of the canonical case."),
+    "assumptions": A_COMMON + ["Groth16 soundness itself (a proof for h does not verify for h' != h) is relied upon, not tested: the check targets how the code wires hashes, keys and errors"],
+    "technique": "model-based property testing against the reference relation with real Groth16 setup/prove/verify and an independent verification path",
+    "level_text": "Exploration on 2-8 real proving systems with dozens to hundreds of generated parameter sets each; acceptance is cross-checked with a verification path that does not use the code under test's witness construction.",
+    "level_note": "independent setups per run (toxic waste discarded); blinding factors are random and not controlled by VERIF_SEED",
+    "quick": [{"test": "TestC07_Insertion", "checks": 45, "timeout": 900},
+              {"test": "TestC07_Deletion", "checks": 45, "timeout": 900}],
+    "thorough": [{"test": "TestC07_Insertion", "checks": 150, "shards": 8, "timeout": 3000},
+                 {"test": "TestC07_Deletion", "checks": 150, "shards": 8, "timeout": 3000}],
+}
